@@ -64,30 +64,41 @@ func c06(c *Ctx) {
 				an.Assume = c.curveAssume(tb)
 				return an
 			}
-			var enum func(an *ranges.An, v ssa.Value, facts []ir.Fact, depth int)
-			enum = func(an *ranges.An, v ssa.Value, facts []ir.Fact, depth int) {
+			// ctx: the form label established further out (a type switch whose arms call one helper per form)
+			specific := func(l string) bool { return l != "" && l != "value" && l != "default-unknown-type" }
+			var enum func(an *ranges.An, v ssa.Value, facts []ir.Fact, depth int, ctx string)
+			enum = func(an *ranges.An, v ssa.Value, facts []ir.Fact, depth int, ctx string) {
 				rv := ir.Resolve(v)
 				if phi, ok := rv.(*ssa.Phi); ok && depth < 4 {
 					for i, e := range phi.Edges {
 						pred := phi.Block().Preds[i]
-						enum(an, e, ranges.FactsAt(phi.Block(), pred), depth+1)
+						enum(an, e, ranges.FactsAt(phi.Block(), pred), depth+1, ctx)
 					}
 					return
+				}
+				if ctx == "" {
+					if l := c.curveFormLabel(facts, rv, tb); specific(l) {
+						ctx = l
+					}
 				}
 				// the form switch moved into a helper of the curves package: enumerate its returns
 				if call, ok := rv.(*ssa.Call); ok && depth < 4 {
 					if cal := ir.Callee(call).Static; cal != nil && load_FuncPkgPath(cal) == PkgCurves && len(cal.Blocks) > 0 && cal.Name() != "SetValue" {
 						if sub := an.Enter(call, facts); sub != nil {
 							for _, r2 := range ir.Returns(cal) {
-								enum(sub, r2.Results[0], ranges.FactsAt(r2.Block(), nil), depth+1)
+								enum(sub, r2.Results[0], ranges.FactsAt(r2.Block(), nil), depth+1, ctx)
 							}
 							return
 						}
 					}
 				}
-				evs = append(evs, edgeVal{rv, facts, c.curveFormLabel(facts, rv, tb), an})
+				label := c.curveFormLabel(facts, rv, tb)
+				if ctx != "" {
+					label = ctx
+				}
+				evs = append(evs, edgeVal{rv, facts, label, an})
 			}
-			enum(newAn(fn), ret.Results[0], facts0, 0)
+			enum(newAn(fn), ret.Results[0], facts0, 0, "")
 			for _, ev := range evs {
 				n++
 				key := fk + "|" + ev.label
